@@ -375,3 +375,40 @@ def check(run, prog):
     # a memo keyed by the text of a token makes one comment's diagnostics depend on another comment's text
     from .c06_memo import rule_memoised_results
     rule_memoised_results(run, prog, "R-17.4")
+    rule_token_identity(run, prog)
+
+
+def rule_token_identity(run, prog):
+    run.rule("R-17.5", "two tokens of a file are never equal: the equality of Token objects (used implicitly by `in`, list.index, "
+             "list.remove, ==) includes the position, which is unique per token -- otherwise a look-up of a comment or string token "
+             "in a token list finds another token with the same text, and the diagnostics depend on what the comment says", floor=1)
+    from .c05_ordering import _compared, _dataclass_order, _fields
+    tk = prog.cls("Token")
+    deco = [ast.unparse(d) for d in tk.node.decorator_list]
+    is_dc = _dataclass_order(tk) is not None
+    eq_off = any(isinstance(d, ast.Call) and any(k.arg == "eq" and isinstance(k.value, ast.Constant) and k.value.value is False
+                                                  for k in d.keywords) for d in tk.node.decorator_list)
+    custom = tk.methods.get("__eq__")
+    why = None
+    if custom is not None:
+        try:
+            from ..lexsim import FlowEvaluator
+            from ..minieval import Obj, Unsupported
+            ev = FlowEvaluator({("Token", k): v.node for k, v in tk.methods.items()}, max_steps=5000)
+            a = Obj("Token", type="COMMENT", pos=(1, 5), value="/* x */")
+            b = Obj("Token", type="COMMENT", pos=(1, 20), value="/* x */")
+            got = ev.invoke(custom.node, [a, b], {})
+            if got is True:
+                why = "Token.__eq__ answers True for two comments with the same text at different positions"
+        except Unsupported as e:
+            raise Undecided(f"Token.__eq__ is outside the evaluable subset: {e}")
+    elif is_dc and not eq_off:
+        f = _fields(tk).get("pos")
+        if f is None:
+            why = "Token has no field `pos`"
+        elif not _compared(f):
+            why = "the field `pos` is excluded from the comparison (field(compare=False))"
+    # not a dataclass, or eq=False: identity comparison -- distinct tokens are distinct
+    run.ob("R-17.5", f"{tk.key}::equality-includes-position", why is None,
+           f"{why}: `tokens.index(token)` / `token in tokens` on a line with two comments of the same text resolves to the first one",
+           tk.node, decorators=deco)
